@@ -295,3 +295,108 @@ def ob_whole_run(mode: int, c0: int, c1: int, c2: int, c3: int) -> bool:
 
 
 THOROUGH = vlib.boot.THOROUGH
+
+
+# ------------------------------------------------------------------ a resumed run is a run: its timeout applies too
+
+from workflows import Context, Workflow, step  # noqa: E402
+from vlib.h_handlers import conc  # noqa: E402
+from vlib.h_idle import install_speedups  # noqa: E402
+
+install_speedups()  # tooling only; every solver decision is taken before the scenario starts
+
+
+class TSlow(Event):
+    pass
+
+
+@obligation(quick=200, thorough=400, partitions_quick=[f"T == {t}" for t in (1, 2, 3)], partitions_thorough=[f"T == {t} and c == {c}" for t in (1, 2, 3, 4) for c in (0, 1, 2)],
+            what="whole run, real BasicRuntime on the virtual-time loop: a run with timeout T is cancelled at a symbolic instant c < T while a step is still "
+                 "running, its context goes through to_dict -> JSON -> Context.from_dict, and the resumed run (still unfinished: the step never "
+                 "completes) fails with WorkflowTimeoutError T seconds after the resume, after publishing WorkflowTimedOutEvent naming the active step; a "
+                 "resumed run whose step does complete in time finishes normally and is not timed out",
+            bounds={"timeout T": "1..3 (thorough 4)", "cancel instant": "0..T-1", "resumed step": "never completes / completes after d < T"})
+def ob_resumed_run_times_out(T: int, c: int, finishes: bool, d: int) -> bool:
+    """
+    pre: 1 <= T <= TMAXR and 0 <= c < T and 0 <= d < T
+    post: _
+    """
+    import asyncio
+    import json
+
+    import workflows.plugins.basic as basic_mod
+    import workflows.runtime.types.step_function as sf_mod
+    from vlib.h_idle import FakeTime
+    from vlib.miniloop import MiniLoop
+
+    T, c, d = conc(T, 1, 4), conc(c, 0, 3), conc(d, 0, 3)
+    finishes = True if finishes else False
+    book = {"life": 1}
+
+    class W(Workflow):
+        @step
+        async def start(self, ctx: Context, ev: StartEvent) -> TSlow:
+            return TSlow()
+
+        @step
+        async def slow(self, ctx: Context, ev: TSlow) -> StopEvent:
+            if book["life"] == 2 and finishes:
+                await asyncio.sleep(d)
+                return StopEvent(result="late but in time")
+            await asyncio.sleep(1000)          # never completes within any timeout considered here
+            return StopEvent(result="never")
+
+    loop = MiniLoop()
+    out: dict = {}
+
+    async def main():
+        w1 = W(timeout=T, runtime=basic_mod.BasicRuntime())
+        h1 = w1.run(run_id="r1")
+        await asyncio.sleep(c)
+        await h1.cancel_run()
+        try:
+            await h1
+            out["first"] = "finished"
+        except WorkflowCancelledByUser:
+            out["first"] = "cancelled"
+        snap = json.loads(json.dumps(h1.ctx.to_dict()))
+        book["life"] = 2
+        w2 = W(timeout=T, runtime=basic_mod.BasicRuntime())
+        t0 = loop.time()
+        h2 = w2.run(ctx=Context.from_dict(w2, snap), run_id="r2")
+        seen = []
+
+        async def watch():
+            async for e in h2.stream_events(expose_internal=True):
+                seen.append(e)
+
+        wt = asyncio.ensure_future(watch())
+        try:
+            out["second"] = ("result", await asyncio.wait_for(h2, timeout=T + 20))
+        except WorkflowTimeoutError:
+            out["second"] = ("timeout", loop.time() - t0)
+        except asyncio.TimeoutError:
+            out["second"] = ("HUNG", None)
+            wt.cancel()
+            return
+        await wt
+        out["timed_out_events"] = [e for e in seen if isinstance(e, WorkflowTimedOutEvent)]
+
+    saved = (basic_mod.time, sf_mod.time)
+    basic_mod.time = sf_mod.time = FakeTime(loop)
+    try:
+        loop.run_until_complete(main())
+    finally:
+        basic_mod.time, sf_mod.time = saved
+    if out.get("first") != "cancelled":
+        return False
+    kind, val = out.get("second", ("none", None))
+    if finishes:
+        return kind == "result" and val == "late but in time" and not out.get("timed_out_events")
+    if kind != "timeout" or val != T:
+        return False
+    evs = out.get("timed_out_events", [])
+    return len(evs) == 1 and evs[0].active_steps == ["slow"]
+
+
+TMAXR = B(3, 4)
